@@ -17,6 +17,12 @@ theorem wcGate_code (n : Int) : Gen.Code.CheckMnemonic_gate n = wcGate n := by
   have h1 := wcGate_iff n
   cases h : Gen.Code.CheckMnemonic_gate n <;> cases h' : wcGate n <;> simp_all
 
+/-- the format string in the translated source is the one the model (and C15) reads from
+`Gen/Consts.lean`; `body_CheckMnemonic` below mentions it literally, so a changed format breaks the
+refinement even when the error value of the model does not carry it -/
+theorem fmt_code : [119, 111, 114, 100, 32, 96, 37, 115, 96, 32, 97, 116, 32, 96, 37, 100, 96, 32, 110, 111, 116, 32, 102, 111, 117, 110, 100, 32, 105, 110, 32, 109, 110, 101, 109, 111, 110, 105, 99, 32, 109, 97, 112, 112, 105, 110, 103]
+    = Gen.CheckMnemonic.fmtStr := by decide
+
 /-- one pass through the token loop -/
 theorem body_CheckMnemonic (m : Option Nat) (wc : Nat) (hwc : wc ≤ 24) (pos : Nat) (w : Str) (acc : Nat) (st : St) (hpos : pos < wc) :
     (if (!(Go.mapLookup2 m w).snd) = true then
